@@ -43,7 +43,7 @@ def run(ctx, kernels=None, configs=("stable",), bounds_only=False):
         if not ok:
             ctx.broke("correspondence", "A:harness build (%s)" % cfg, log[-1200:])
             continue
-        imp = runner.impl("sym", cases, config=cfg, timeout=240)
+        imp = runner.impl("sym", cases, config=cfg, timeout=600)
         n_bad = 0
         for c, a, b in zip(cases, imp, mod):
             if a != b and bounds_only:
